@@ -1,8 +1,10 @@
 import SmtpV.Props.DataMonitor
+import SmtpV.Proofs.BdatEof
 /-!
 # C07 — an incomplete message is never presented to the backend as complete (DATA reader part)
 
-BDAT (pipe closed cleanly only after a LAST chunk copied in full) is in Props/C07Conv.lean.
+BDAT (the delivery sees a clean end of file only after a LAST chunk copied in full; an abandoned transfer ends with
+`ErrDataReset`) follows below, on the server model (`Proofs/BdatEof.lean`).
 -/
 namespace SmtpV.Props.C07
 open SmtpV SmtpV.Spec SmtpV.DataReader
@@ -36,5 +38,29 @@ example :
     ((readSched {} (s.take 6) [9, 9]).1.map Prod.snd = [.ueof]) ∧
     ((readSched {} (s.take 7) [9, 9]).1.map Prod.snd = [.eof]) := by
   decide +kernel
+
+/-! ### chunked transfers on the server model -/
+open SmtpV.Server
+
+/-- **C07_bdat_eof_only_after_last.**  Executing an accepted `BDAT` command — whatever state the connection is in, whatever
+    the backend does with the octets, however the chunk arrives or fails to arrive — records a clean end of file for a
+    delivery only if the command carried `LAST`; and (second part) what follows the copy of a chunk records one only if,
+    in addition, the copy of the chunk was complete. -/
+theorem C07_bdat_eof_only_after_last (s : S) (size : Nat) (last : Bool) (j : Nat) :
+    (eofAt (bdatChunk s size last).1 j → eofAt s j ∨ last = true) ∧
+    (∀ k left ce, eofAt (bdatAfterCopy s k size left last ce).1 j → eofAt s j ∨ (last = true ∧ ce = .done)) :=
+  ⟨bdatChunk_eof s size last j, fun k left ce h => bdatAfterCopy_eof s k size left last ce j h⟩
+
+/-- **C07_abandoned_is_reset.**  A chunked transfer that is running when the transaction is reset (RSET, a new greeting,
+    STARTTLS, a failed chunk) or the connection is closed (QUIT, too many errors, a lost or timed-out connection, Close)
+    ends with `ErrDataReset` — its reader never reports end of file. -/
+theorem C07_abandoned_is_reset (s : S) (k : Nat) (hb : s.c.bdat = some k) (hr : delivRunning s k = true) :
+    (∃ d', (resetConn s).drecs[k]? = some d' ∧ d'.rdEnd = .reset ∧ d'.finished = true) ∧
+    (∃ d', (closeConn s).drecs[k]? = some d' ∧ d'.rdEnd = .reset ∧ d'.finished = true) :=
+  abandoned_is_reset s k hb hr
+
+/-- resetting and closing never add an end-of-file record, whatever the state -/
+theorem C07_reset_close_no_eof (s : S) : NoNewEof s (resetConn s) ∧ NoNewEof s (closeConn s) :=
+  ⟨nne_resetConn s, nne_closeConn s⟩
 
 end SmtpV.Props.C07
